@@ -166,6 +166,7 @@ class Ctx:
         res = run_tlc(module, cfg, workers=workers, timeout=timeout, env=env, **kw)
         self.states += res.distinct
         self.transitions += res.generated
+        print(f"  [mc] {module}/{cfg}: {res.distinct} distinct states, {res.wall:.1f}s", file=sys.stderr)
         self.mc_jobs.append({"module": module, "cfg": cfg or module + ".cfg", "distinct": res.distinct,
                              "generated": res.generated, "depth": res.depth, "wall_s": round(res.wall, 1),
                              "completed": res.completed})
@@ -222,6 +223,7 @@ class Ctx:
                 self.events_validated += n
                 os.remove(path)
         self.traces_validated += len(out)
+        print(f"  [trace] {module}: {len(out)} cases / {sum(n for _, n in jobs)} events validated", file=sys.stderr)
         return out
 
     # ---- verdict relay -------------------------------------------------------------------
